@@ -13,9 +13,10 @@ From ZI Require Import Model.PyFunc Spec.Signature Gen.FromFunction Model.FromFu
 
 (* For every valid signature (any number of positional-only, positional-or-keyword and
    keyword-only parameters with any defaults satisfying Python's rule, optional *name and
-   **name), any local variables after the parameters, any function attributes, and any number
-   [iml] of bound leading arguments not exceeding the number of positional parameters (0 for a
-   function, 1 for a method): fromFunction raises nothing and reports
+   **name), any local variables after the parameters, any function attributes, and ANY number
+   [iml] of bound leading arguments (0 for a function, 1 for a method; an [iml] beyond the
+   positional parameters strips all of them and nothing else — ``def m( *args)`` described as a
+   method is ``( *args)``): fromFunction raises nothing and reports
      positional = the remaining positional parameter names in order,
      required   = those without a default,
      optional   = name -> default for the others, in order,
@@ -23,7 +24,7 @@ From ZI Require Import Model.PyFunc Spec.Signature Gen.FromFunction Model.FromFu
      tagged values = the function's attributes. *)
 Theorem C18_fromFunction_correct :
   forall (s : signature) (locals : list name) (fd : list (name * dflt)) (iml : nat),
-  valid s -> NoDup (map fst fd) -> iml <= length (positionals s) ->
+  valid s -> NoDup (map fst fd) ->
   fromFunction (layout s locals fd iml)
   = Ok (mkMethod (map fst (skipn iml (posonly s ++ pos s)))
                  (map fst (filter (fun p => negb (has_default p)) (skipn iml (posonly s ++ pos s))))
@@ -39,7 +40,7 @@ Print Assumptions C18_fromFunction_correct.
    "name" / "name=default" for the remaining positional parameters, then "*name", "**name" *)
 Theorem C18_signature_string_renders :
   forall (s : signature) (locals : list name) (fd : list (name * dflt)) (iml : nat),
-  valid s -> NoDup (map fst fd) -> iml <= length (positionals s) ->
+  valid s -> NoDup (map fst fd) ->
   exists m, fromFunction (layout s locals fd iml) = Ok m /\
     getSignatureString m
     = map (fun p => match snd p with Some d => TNameDefault (fst p) d | None => TName (fst p) end)
@@ -49,16 +50,17 @@ Theorem C18_signature_string_renders :
 Proof. exact signature_string_renders. Qed.
 Print Assumptions C18_signature_string_renders.
 
-(* fromMethod describes the method without its leading (self) parameter, whatever imlevel the
-   caller's record carried *)
+(* fromMethod describes the method without its leading (self) positional parameter, whatever
+   imlevel the caller's record carried; a method without a named positional parameter
+   (``def m( *args)``, ``def m( **kw)``, ``def m( *, k)``) keeps everything ([tl [] = []]) *)
 Theorem C18_fromMethod_strips_self :
-  forall (s : signature) (locals : list name) (fd : list (name * dflt)) (iml0 : nat)
-         (self : param) (rest : list param),
-  valid s -> NoDup (map fst fd) -> posonly s ++ pos s = self :: rest ->
+  forall (s : signature) (locals : list name) (fd : list (name * dflt)) (iml0 : nat),
+  valid s -> NoDup (map fst fd) ->
   fromMethod (layout s locals fd iml0)
-  = Ok (mkMethod (map fst rest)
-                 (map fst (filter (fun p => negb (has_default p)) rest))
-                 (flat_map (fun p => match snd p with Some d => [(fst p, d)] | None => [] end) rest)
+  = Ok (mkMethod (map fst (tl (posonly s ++ pos s)))
+                 (map fst (filter (fun p => negb (has_default p)) (tl (posonly s ++ pos s))))
+                 (flat_map (fun p => match snd p with Some d => [(fst p, d)] | None => [] end)
+                           (tl (posonly s ++ pos s)))
                  (vararg s) (varkw s) fd).
 Proof. exact fromMethod_strips_self. Qed.
 Print Assumptions C18_fromMethod_strips_self.
@@ -93,6 +95,15 @@ Example C18_ex_negative_nr :
   valid ex_sig_alldef /\
   fromMethod (layout ex_sig_alldef [] [] 0) = Ok (mkMethod [1] [] [(1, 1)] None None []).
 Proof. split; [split; [reflexivity | cbn; nodup] | vm_compute; reflexivity]. Qed.
+
+(* a method that takes its instance through *args: nothing is stripped.
+   def m( *args, k=D1, **kw)  via fromMethod  ->  ( *args, **kw);  names 4 args, 5 k, 7 kw *)
+Definition ex_sig_star : signature := mkSig [] [] (Some 4) [(5, Some 1)] (Some 7).
+Example C18_ex_method_star_only :
+  valid ex_sig_star /\
+  fromMethod (layout ex_sig_star [8] [] 0) = Ok (mkMethod [] [] [] (Some 4) (Some 7) []) /\
+  fromFunction (layout ex_sig_star [8] [] 3) = Ok (mkMethod [] [] [] (Some 4) (Some 7) []).
+Proof. split; [split; [reflexivity | cbn; nodup] | split; vm_compute; reflexivity]. Qed.
 
 (* The theorem depends on the fix "fromFunction locates *args/**kw after keyword-only
    parameters": the pre-fix formula (argno = na; Model/FromFunctionPrefix.v, the translator's
